@@ -11,12 +11,17 @@ files   = comma separated `<d><stem>.<ext>` (see the C04 driver)
 content = `name:rev.rev…` joined by `;` (`-` = none); a name without entry holds no revision
 schedule = actions joined by `;` (`-` = none):
            `<pid>:r` reload | `<pid>:f:<rev.rev…>` finish | `<pid>:k:<name.name…>` repack |
-           `<pid>:s:<T|F>` save | `<pid>:o` obsolete | `<pid>:c` clearAll
+           `<pid>:s:<T|F>` save | `<pid>:o` obsolete | `<pid>:c` clearAll |
+           `<pid>:fa:<name>:<rev.rev…>` finish with a given (reused) name |
+           `<pid>:ka:<name>:<name.name…>` repack with a given (reused) name
 
-reply: the state after every step (initial one included) joined by `/`;
-state = `<disk>#<proc0>#<proc1>…`, disk as in the C04 driver, proc =
-`<L|N>~<names>~<atLoad>~<toObsolete>`; then ` ` and the visible revisions at
-the end (sorted, duplicates removed).
+reply: three fields separated by a space:
+ 1. the state after every step (initial one included) joined by `/`;
+    state = `<disk>#<proc0>#<proc1>…`, disk as in the C04 driver, proc =
+    `<L|N>~<names>~<atLoad>~<toObsolete>`;
+ 2. for every step that wrote a pack, in order, `<name>=<revisions it holds>`
+    (sorted, duplicates removed) joined by `;` (`-` = none);
+ 3. the visible revisions at the end (sorted, duplicates removed).
 -/
 namespace BreezyVerif.C05
 open BreezyVerif.C04
@@ -35,18 +40,28 @@ def lookup (l : List (Nat × List Nat)) (n : Nat) : List Nat :=
   | some e => e.2
   | none => []
 
-def parseAct (s : String) : Option (Nat × Act) :=
+def parseAct (s : String) : Option (Nat × XAct) :=
   match s.splitOn ":" with
-  | [p, "r"] => do pure (← p.toNat?, .reload)
-  | [p, "f", r] => do pure (← p.toNat?, .finish (← parseDots r))
-  | [p, "k", r] => do pure (← p.toNat?, .repack (← parseDots r))
-  | [p, "s", c] => do pure (← p.toNat?, .save (← parseBool c))
-  | [p, "o"] => do pure (← p.toNat?, .obsolete)
-  | [p, "c"] => do pure (← p.toNat?, .clearAll)
+  | [p, "r"] => do pure (← p.toNat?, .base .reload)
+  | [p, "f", r] => do pure (← p.toNat?, .base (.finish (← parseDots r)))
+  | [p, "k", r] => do pure (← p.toNat?, .base (.repack (← parseDots r)))
+  | [p, "s", c] => do pure (← p.toNat?, .base (.save (← parseBool c)))
+  | [p, "o"] => do pure (← p.toNat?, .base .obsolete)
+  | [p, "c"] => do pure (← p.toNat?, .base .clearAll)
+  | [p, "fa", m, r] => do pure (← p.toNat?, .finishAs (← m.toNat?) (← parseDots r))
+  | [p, "ka", m, r] => do pure (← p.toNat?, .repackAs (← m.toNat?) (← parseDots r))
   | _ => none
 
-def parseSched (s : String) : Option Schedule :=
+def parseSched (s : String) : Option XSchedule :=
   if s == "-" then some [] else (s.splitOn ";").mapM parseAct
+
+/-- the name of the pack the step writes, if it writes one -/
+def writtenName (s : Sys) (i : Nat) : XAct → Option Nat
+  | .base (.finish _) => some (s.next + 1)
+  | .base (.repack sel) => if sel.all (fun n => (s.procs i).names.contains n) then some (s.next + 1) else none
+  | .finishAs m _ => some m
+  | .repackAs m sel => if sel.all (fun n => (s.procs i).names.contains n) then some m else none
+  | _ => none
 
 def showProc (p : Proc) : String :=
   s!"{if p.loaded then "L" else "N"}~{showNats p.names}~{showNats p.atLoad}~{showNats p.toObsolete}"
@@ -54,9 +69,17 @@ def showProc (p : Proc) : String :=
 def showSys (n : Nat) (s : Sys) : String :=
   "#".intercalate (showDisk s.disk :: (List.range n).map (fun i => showProc (s.procs i)))
 
-def trace (s : Sys) : Schedule → List Sys
+def trace (s : Sys) : XSchedule → List Sys
   | [] => [s]
-  | a :: rest => s :: trace (step s a.1 a.2) rest
+  | a :: rest => s :: trace (stepX s a.1 a.2) rest
+
+def written (s : Sys) : XSchedule → List String
+  | [] => []
+  | a :: rest =>
+    let s' := stepX s a.1 a.2
+    match writtenName s a.1 a.2 with
+    | some m => s!"{m}={showNats (s'.content m).eraseDups}" :: written s' rest
+    | none => written s' rest
 
 def handle : List String → String
   | ["exec", chk, names, files, content, next, nprocs, sched] =>
@@ -66,7 +89,8 @@ def handle : List String → String
       let s0 := Sys.init chk ⟨names, files, [], false⟩ (lookup content) next
       let tr := trace s0 sched
       let last := tr.getLast?.getD s0
-      s!"{"/".intercalate (tr.map (showSys np))} {showNats (visible last).eraseDups}"
+      let w := written s0 sched
+      s!"{"/".intercalate (tr.map (showSys np))} {if w.isEmpty then "-" else ";".intercalate w} {showNats (visible last).eraseDups}"
     | _, _, _, _, _, _, _ => "bad-op"
   | _ => "bad-op"
 
